@@ -532,7 +532,8 @@ def check(run):
         "container); objects carrying one or both of two registered toplevel-property-extensions, each preceded in the same "
         "process by an object of another combination; for the first option sets: the same text given to parse() as dictionary, "
         "text stream, bytes and with the version named; fp_serialize and str() against serialize(); serialize() repeated on "
-        "the already serialized object with the same option names and other values against a never-serialized copy; "
+        "the already serialized object with the same option names and other values against a never-serialized copy; the "
+        "pretty top-level order against the plain one; the oracle workers run under a non-UTC process time zone (IST-5:30); "
         "non-trivial = the object was created" % per_class)
     model_ok = sc.translate_and_build(run, "Props/C01.v")
     variants = sc.detect_variants(run)
